@@ -164,10 +164,10 @@ def fix_flat_patterns(meas, groups):
 
 
 @st.composite
-def data_matrix(draw, n, p, method, kind=None):
+def data_matrix(draw, n, p, method, kind=None, positive=False):
     """n x p nested list suited to the method; returns (matrix, kind)"""
     if method == 'poisson':
-        kind = kind or draw(st.sampled_from(['count', 'count', 'pos']))
+        kind = 'pos' if positive else (kind or draw(st.sampled_from(['count', 'count', 'pos'])))
         if kind == 'count':
             el = st.integers(0, 12).map(float)
         else:
@@ -196,7 +196,9 @@ def np_data(m, dtype):
     return a
 
 
-PRIORS = [(1.0, 0.1), (1.0, 0.1), (0.5, 1.0), (2.0, 0.25), (3.0, 0.01), (0.125, 2.0)]
+# (prior_lambda = 0 with a positive weight is a valid prior setting: the rates are mean/(1+w);
+#  it needs strictly positive data, see `positive` in data_matrix)
+PRIORS = [(1.0, 0.1), (1.0, 0.1), (0.5, 1.0), (2.0, 0.25), (3.0, 0.01), (0.125, 2.0), (0.0, 0.5)]
 
 
 @st.composite
